@@ -72,7 +72,8 @@ def specs(res):
     out = []
     if res.tier == "quick":
         sizes = [3521, 4065, 4066, 4067, 4068, 8130, 8131, 25 * 4064 + 2, 25 * 4064 + 3, 26 * 4064 + 3,
-                 152 * 4064 + 2]      # 152 = 25 + 127 pages: the last bitmap-extension block is exactly full
+                 152 * 4064 + 2,      # 152 = 25 + 127 pages: the last bitmap-extension block is exactly full
+                 152 * 4064 + 3, 700001]   # a second bitmap-extension block
         for sz in sizes: out.append(gen.gen_geom(vlib.rng_for(res.seed, f"C14s{sz}"), size=sz))
         for i in range(40): out.append(gen.gen_geom(vlib.rng_for(res.seed, f"C14r{i}")))
     else:
